@@ -84,8 +84,22 @@ func genC12(seed uint64) *Plan {
 	pr.FragmentProb = 0
 	pr.BigGapProb = 0.02
 	g := newGen("C12", seed, pr)
+	if g.r.Chance(0.3) {
+		// the DUT is the active side towards the first neighbour: one FSM serves all its sessions, so a
+		// policy replaced while the session is down has to be remembered by that FSM
+		pc := &g.plan.Peers[0]
+		pc.Active, pc.DialTarget, pc.ReconnectUS = true, true, 100_000
+	}
 	g.connectAll()
 	g.workload()
+	defer func() {
+		// the DUT dials the active neighbour by itself: its connect steps become waits
+		for i := range g.plan.Steps {
+			if s := &g.plan.Steps[i]; s.Kind == "connect" && g.plan.Peers[s.Peer].Active {
+				s.Kind = "wait"
+			}
+		}
+	}()
 	// one to four replacements, some of them differing from the previous policy in exactly one detail
 	r := g.r
 	n := 1 + r.Intn(4)
@@ -119,6 +133,11 @@ func genC12(seed uint64) *Plan {
 		g.add(Step{GapUS: g.gap(), Kind: "peer_notify", Peer: pi, Code: 6, Sub: 4})
 		g.announced[pi] = map[viewKey]uint32{}
 		g.lastAnn[pi] = map[Prefix]AttrSpec{}
+		if r.Chance(0.5) {
+			// ... also when the replacement happens while the session is down
+			kind := pick(r, []string{"import", "export"})
+			g.add(Step{GapUS: 20_000, Kind: kind, Peer: pi, Policy: g.genPolicy(pick(r, []string{"accept", "rejectsome", "rewrite", "rewrite"}))})
+		}
 		g.add(Step{GapUS: 300_000 + int64(r.Intn(1_000_000)), Kind: "connect", Peer: pi})
 		g.add(Step{GapUS: 400_000, Kind: "checkpoint"})
 		for k := 0; k < 1+r.Intn(3); k++ {
